@@ -107,6 +107,12 @@ def default_worker_run(mod, tier, seed, examples, col):
 def _worker(args):
     modname, tier, seed, examples, idx = args
     col = Collector(idx)
+    try:  # safety net: a runaway allocation must fail in the worker, not take the machine down
+        import resource  # noqa: PLC0415
+
+        resource.setrlimit(resource.RLIMIT_AS, (12 * 2**30, 12 * 2**30))
+    except Exception:  # noqa: BLE001, S110
+        pass
     status, err = "ok", None
     try:
         lib()
